@@ -233,6 +233,13 @@ class Interp:
         self.obs = []
         self.rng = rng
         self.fn_meta = []
+        self.frame_checks = []  # (statement kind, caller bindings before, after, depth before, after)
+
+    def _snap(self):
+        from jaxtyping import _storage
+
+        depth = len(getattr(_storage._shape_storage, "memo_stack", []) or [])
+        return canon_bindings(bindings()), depth
 
     def run(self, progs):
         for p in progs:
@@ -250,6 +257,7 @@ class Interp:
         elif op == "disable":
             jaxtyping.config.update("jaxtyping_disable", p.get("v", True))
         elif op == "ctx":
+            before = self._snap()
             try:
                 with jaxtyped("context"):
                     for q in p["body"]:
@@ -264,8 +272,13 @@ class Interp:
                 self.obs.append({"o": "outcome", "v": "exc"})
             except UserBaseExc:
                 self.obs.append({"o": "outcome", "v": "baseexc"})
+            self.frame_checks.append(("ctx", before, self._snap(), p))
         elif op == "call":
+            bare = bool(jaxtyping.config.jaxtyping_disable or p.get("notc")) and p.get("kind", "new") == "new"
+            before = self._snap()
             self.call(p)
+            if not bare:
+                self.frame_checks.append(("call:" + p.get("kind", "new"), before, self._snap(), p))
         else:
             raise ValueError(op)
 
@@ -354,6 +367,7 @@ def run_program(progs, checker="typeguard", rng=None):
         obs = it.run(progs)
     finally:
         jaxtyping.config.update("jaxtyping_disable", False)
+    run_program.last_frame_checks = it.frame_checks
     return obs, residual_state()
 
 
